@@ -155,7 +155,7 @@ theorem invM_of_cframe {s s' : State} (h : InvM s) (hf : CFrame s s') : InvM s' 
 
 /-- the context map after a lifecycle operation: the same, or one context replaced keeping its service -/
 def CtxsSameSvc (s s' : State) : Prop :=
-  s'.ctxs = s.ctxs ∨ ∃ c x x', Map.get s.ctxs c = some x ∧ x'.svc = x.svc ∧ s'.ctxs = Map.set s.ctxs c x'
+  s'.ctxs = s.ctxs ∨ ∃ c x x', Map.get s.ctxs c = some x ∧ (x'.svc = x.svc ∧ x'.super = x.super) ∧ s'.ctxs = Map.set s.ctxs c x'
 
 theorem bound_of_sameSvc {s s' : State} (h : InvBound s) (hf : CFrame s s') (hc : CtxsSameSvc s s') : InvBound s' := by
   show BoundInv s'.ctxs s'.reqs s'.bindings
@@ -171,7 +171,7 @@ theorem pauseK_sameSvc (s : State) (c : CtxId) (cons : Addr) : CtxsSameSvc s (pa
   | some x =>
     dsimp only
     repeat' split
-    all_goals first | (left; rfl) | (right; refine ⟨c, x, _, hx, ?_, rfl⟩; rfl)
+    all_goals first | (left; rfl) | (right; refine ⟨c, x, _, hx, ?_, rfl⟩; exact ⟨rfl, rfl⟩)
 
 theorem killK_sameSvc (s : State) (c : CtxId) (cons : Addr) : CtxsSameSvc s (killK s c cons).1 := by
   unfold killK
@@ -180,7 +180,7 @@ theorem killK_sameSvc (s : State) (c : CtxId) (cons : Addr) : CtxsSameSvc s (kil
   | some x =>
     dsimp only
     repeat' split
-    all_goals first | (left; rfl) | (right; refine ⟨c, x, _, hx, ?_, rfl⟩; rfl)
+    all_goals first | (left; rfl) | (right; refine ⟨c, x, _, hx, ?_, rfl⟩; exact ⟨rfl, rfl⟩)
 
 theorem startK_sameSvc (s : State) (c : CtxId) (cons : Addr) : CtxsSameSvc s (startK s c cons).1 := by
   unfold startK
@@ -189,7 +189,7 @@ theorem startK_sameSvc (s : State) (c : CtxId) (cons : Addr) : CtxsSameSvc s (st
   | some x =>
     dsimp only
     repeat' split
-    all_goals first | (left; rfl) | (right; refine ⟨c, x, _, hx, ?_, rfl⟩; rfl)
+    all_goals first | (left; rfl) | (right; refine ⟨c, x, _, hx, ?_, rfl⟩; exact ⟨rfl, rfl⟩)
 
 theorem updateK_sameSvc (s : State) (c : CtxId) (cons : Addr) (provs : List Addr) (thr : Nat) (cap : Option Nat)
     (timeout : Int) (freq : Nat) (total : Int) : CtxsSameSvc s (updateK s c cons provs thr cap timeout freq total).1 := by
@@ -207,7 +207,7 @@ theorem updateK_sameSvc (s : State) (c : CtxId) (cons : Addr) (provs : List Addr
       repeat' split
       all_goals first
         | (left; rfl)
-        | (right; refine ⟨c, x, _, hx, ?_, rfl⟩; unfold updFields; exact (updThr_ok hu).1.2.1)
+        | (right; refine ⟨c, x, _, hx, ?_, rfl⟩; unfold updFields; exact ⟨(updThr_ok hu).1.2.1, (updThr_ok hu).2.2.2.2.2⟩)
 
 theorem ctxop_inv {s s' : State} (h : Inv s) (hf : CFrame s s') (hX : InvX s') (hc : CtxsSameSvc s s') : Inv s' := by
   refine { static := ?_, b := invB_of_cframe h.b hf, x := hX, m := invM_of_cframe h.m hf, bound := bound_of_sameSvc h.bound hf hc }
